@@ -7,3 +7,5 @@ STANDIN = "standins/dbdiff.py"
 TRUSTED = TRUSTED_CORE + [STORAGE_ASSUMED, QUERY_ASSUMED, TIME_ASSUMED, "the Any universe of contracts/any_model.py for update arguments"]
 ASSUMPTIONS = [A_ALIAS, "KF-18: MemoryStorage applies updates in place; relative to the non-aliasing Storage contract"]
 FUNCTIONS = FUNCTIONS + MEM_REFINEMENT  # MemoryStorage refines the abstract Storage contract
+# an operation that raises because reading storage failed (C13's read faults) must also leave a usable database: the index rebuild and its caller
+FUNCTIONS = FUNCTIONS + [IX + "build", TF + "reindex"]
